@@ -11,6 +11,9 @@ from . import common as K
 SELECT_MSGS = ("all branches are disabled and there is no else bra", "internal error: entered unreachable code: failed t", "internal error: entered unreachable code: reaching")
 
 
+STAKE_SUM_SHORT = "stakes of distinct validators sum to at most the total stake, which fits u64"
+
+
 def auto(site, prog):
     """-> reason string when the site is discharged by an idiom, else None"""
     b = site.body
@@ -76,6 +79,40 @@ def auto(site, prog):
                     end = dict(rng[0][3]).get("end")
                     if isinstance(end, tuple) and end and end[0] == "call" and end[1].rsplit("::", 1)[-1] == "len" and end[2] and K.peel(end[2][0]) == K.peel(cap):
                         return "index drawn from 0..len() of the very collection it indexes"
+    if site.kind == "panic":
+        # `if let Err(e) = tx.send(x).await { panic!(..) }`: the let-else / match spelling of `.expect(..)` on a local channel send (A3)
+        from engine import guards as _G
+        for a in _G.guard_atoms(b, site.bb, prog):
+            if a[0] == "is_ok" and a[2] is False and isinstance(a[1][0], tuple):
+                calls = [x[1] for x in mir.walk(a[1][0]) if isinstance(x, tuple) and x and x[0] == "call"]
+                if any(("mpsc" in c or "oneshot" in c) and c.endswith(("::send", "Sender<T>::send")) for c in calls):
+                    return "panic on the Err arm of a local channel send (peer task owns the receiver for the node's lifetime; not input dependent)"
+    if site.kind == "index" and t is not None and t[0] == "call" and len(t[2]) == 2:
+        # `if xs.len() == k { xs[c] }` with c < k, `if !xs.is_empty() { xs[0] }`: a constant index under a dominating length test on the same collection
+        from engine import guards as _G
+        base, ix = K.peel(t[2][0]), K.peel(t[2][1])
+        c0 = K.const_eval(ix) if isinstance(ix, tuple) else None
+        if c0 is not None:
+            for a in _G.guard_atoms(b, site.bb, prog):
+                if a[0] == "eq" and a[2] is True and len(a[1]) == 2:
+                    for l, r in ((a[1][0], a[1][1]), (a[1][1], a[1][0])):
+                        l = K.peel(l)
+                        if isinstance(l, tuple) and l and l[0] == "call" and l[1].rsplit("::", 1)[-1] == "len" and l[2] and K.peel(l[2][0]) == base:
+                            k = K.const_eval(r)
+                            if k is not None and c0 < k:
+                                return "constant index %d under the dominating test len() == %d on the same collection" % (c0, k)
+                if c0 == 0 and a[0] == "bool" and a[2] is False and isinstance(a[1][0], tuple) and a[1][0][0] == "call" and a[1][0][1].rsplit("::", 1)[-1] == "is_empty" and a[1][0][2] and K.peel(a[1][0][2][0]) == base:
+                    return "index 0 under the dominating test !is_empty() on the same collection"
+    if site.kind == "arith" and site.what == "add_assign Stake" and t is not None and t[0] == "call" and len(t[2]) == 2:
+        # `let mut s = Stake::default(); for v in .. { s += v.stake }`: the loop spelling of `.map(|v| v.stake).sum::<Stake>()` - the same
+        # additions in the same order; the sum of the stakes of distinct validators is at most the total stake, which EpochInfo::new summed
+        acc, add = K.peel(t[2][0]), K.peel(t[2][1])
+        if isinstance(acc, tuple) and acc and acc[0] == "local" and K.is_field(add, "stake") and "ValidatorInfo" in str(add[3] if len(add) > 3 else ""):
+            bb = t[3] if len(t) > 3 else None
+            inloop = [nodes for (_h, nodes) in b.loops() if bb in nodes]
+            inits = [d for d in b.defs().get(acc[1], []) if not any(d[1] in nodes for nodes in inloop)]
+            if inloop and inits and all(d[0] == "call" and mir.strip_generics(d[3].get("callee", "")).rsplit("::", 1)[-1] in ("default", "new") for d in inits):
+                return "running sum of ValidatorInfo.stake in a loop, starting from zero: the arithmetic of Iterator::sum::<Stake>() over the same elements (" + STAKE_SUM_SHORT + ")"
     if site.kind == "assert" and site.what == "Overflow:Sub" and t is not None:
         a, c = K.peel(t[1][0]), K.peel(t[1][1])
         # x - x % c  (and x - (x & m)): the subtrahend never exceeds x
